@@ -53,6 +53,9 @@ def main(tier, seed, prop='C01', prop_files=('Properties/C01.v',), cone=('Proofs
                    no_input=True)
     for name, out in broken:
         dec.report(dict(kind='case-file-broken', file=name, detail=out), no_input=True)
+    # the bytes a thread emits are a function of ITS PDU value, whatever other association threads encode meanwhile
+    import race
+    dec.concurrent_use([race.pdata_ops, race.assoc_ops])
     # the nwf list inflates "obligations": those shards count as undischarged only if non-empty; fix counts
     runner.keep = bool(dec.violations)
     runner.cleanup()
